@@ -19,8 +19,14 @@ THOROUGH_SHARDS = 16
 MAX_ALL = 3000
 
 
+# decoders whose *text* reads, by design, tables keyed by an argument (another thread's id): their rendering is the
+# statement's carve-out, but their existence and event list are still per-thread results
+CROSS_READERS = {'TraceDataThreadTerminate'}
+
+
 def trace_key(t):
-    return (type(t).__name__, str(t), tuple((e.tid, e.debugid, e.data) for e in t.ktraces))
+    text = '<reads a by-design shared table>' if type(t).__name__ in CROSS_READERS else str(t)
+    return (type(t).__name__, text, tuple((e.tid, e.debugid, e.data) for e in t.ktraces))
 
 
 def run_stream(items):
@@ -57,6 +63,17 @@ def gen_programs(rng, pairs_everywhere):
             prog = H.scenario(rng, keyspace, kinds=('exec',))
         programs.append(prog)
         tids.append(tid)
+    # records that *name* another traced thread (reaper-style terminate records, context-switch records): they belong to
+    # the emitting thread's program and must not disturb the named thread's results
+    all_tids = [10 + t for t in range(nthreads)]
+    for t in range(nthreads):
+        if rng.random() < 0.5 and len(programs[t]) < 9:
+            other = rng.choice([x for x in all_tids if x != 10 + t])
+            rec = rng.choice((H.A('TRACE_DATA_THREAD_TERMINATE', H.NONE, (other, 0, 0, 0)),
+                              H.A('PERF_THD_CSwitch', H.NONE, (other, 100 * (t + 1), 0, 0)),
+                              H.A('MACH_MKRUNNABLE', H.NONE, (other, 31, 0, 1)),
+                              H.A('MACH_STKHANDOFF', H.NONE, (0, other, 31, 31))))
+            programs[t].insert(rng.randrange(len(programs[t]) + 1), rec)
     return programs, tids
 
 
